@@ -232,7 +232,13 @@ func c14RunStream(c *h.Ctx, bucket string, isServer, deflate bool, limit int64, 
 	model := kvLine(c.O.Call("ws.read", roleStr(isServer), b01(deflate), fmt.Sprint(limit), hx))
 	impl := wsImplRead(c, isServer, deflate, limit, []int{0, 125, 256}[c.R.Intn(3)], stream, tin)
 	mm, badAt := modelMsgs(model["msgs"])
-	if badAt < 0 {
+	// with deflate negotiated an RSV1 message goes through compress/flate, which is a parameter of the model:
+	// when the inflater itself rejects the (random/cut) payload there is nothing to compare with
+	flateErr := deflate && (impl.err == "flate" || impl.err == "io-ueof")
+	if flateErr {
+		bucket += "/inflate-error"
+	}
+	if badAt < 0 && !flateErr {
 		mo := wsReadOut{msgs: mm, err: model["err"], replies: model["replies"], sticky: model["sticky"] == "1"}
 		mo.partial, _ = strconv.Atoi(model["partial"])
 		if deflate {
